@@ -212,7 +212,9 @@ def _run_exact_retry(spec):
         d = float(np.max(np.abs(y2 - ex) / (1 + np.abs(ex))))
         worst = max(worst, d)
         rec.nontrivial = True
-        if d > 1e-9:
+        # published coefficients of the order-14 pair are only ~3e-13 accurate: a long accepted step is judged with the general exactness threshold
+        thr = 1e-12 if (len(second) >= 2 and abs(float(dT2)) <= 0.5) else 1e-10
+        if d > thr:      # (worst on the unchanged tree: 7e-15; a stale slope leaves ~1e-9 at these tolerances, since the controller sees only a fraction of it)
             rec.violate("declared_order_exactness", "step_after_a_continued_call_or_a_rejected_attempt_is_not_exact", dict(feats, rejected_attempts=len(second) - 1),
                         defect=d, attempts=[a_["h"] for a_ in second][:6], dT=float(dT2))
             break
